@@ -23,8 +23,8 @@ from ..simfs import SimFS
 ID = "C18"
 LEVEL = "exploration"
 TIERS = {
-    "quick": {"runs": 900, "wall_cap": 170, "timeout": 160, "dups": 8, "step_cap": 1200},
-    "thorough": {"runs": 9000, "wall_cap": 1750, "timeout": 300, "dups": 32, "step_cap": 4000},
+    "quick": {"runs": 900, "wall_cap": 170, "timeout": 450, "dups": 8, "step_cap": 1200},
+    "thorough": {"runs": 9000, "wall_cap": 1750, "timeout": 900, "dups": 32, "step_cap": 4000},
 }
 RULE = ("Each run: one or two whole Wang-Landau runs (WangLandauMachine.run, directly or through SequencePermutants) on a seeded 6-16 residue "
         "sequence given as string / fresh Sequence / Sequence with kappa cached, with seeded geometry (M in {2,3,4,5,8,10}, range [a/M,b/M], "
